@@ -6,6 +6,7 @@ CONSTANTS
   Runs = 3
   FirstVisitCounts = FALSE
   WaitForVisited = TRUE
+  RootsAreEntries = TRUE
 INVARIANTS SweepBound FixedPoint Stable AllVisited
 PROPERTY Terminates
 CHECK_DEADLOCK FALSE
